@@ -31,7 +31,6 @@ import (
 //verif:stub (*github.com/bluenviron/gohlslib/v2/pkg/playlist.Multivariant).Unmarshal verifStub_MultivariantUnmarshal
 //verif:stub github.com/bluenviron/gohlslib/v2.targetDuration verifStub_targetDuration
 //verif:stub github.com/bluenviron/gohlslib/v2.partTargetDuration verifStub_partTargetDuration
-//verif:stub github.com/bluenviron/gohlslib/v2.findCompatiblePartDuration verifStub_findCompat
 //verif:stub (*github.com/bluenviron/mediacommon/v2/pkg/formats/mpegts.Writer).Initialize verifStub_TSInit
 //verif:stub (*github.com/bluenviron/mediacommon/v2/pkg/formats/mpegts.Writer).WriteH264 verifStub_TSWriteH264
 //verif:stub (*github.com/bluenviron/mediacommon/v2/pkg/formats/mpegts.Writer).WriteMPEG4Audio verifStub_TSWriteMPEG4Audio
@@ -274,9 +273,3 @@ func verifStub_SPSWidth(s h264.SPS) int                    { return 1920 }
 func verifStub_SPSHeight(s h264.SPS) int                   { return 1080 }
 func verifStub_SPSFPS(s h264.SPS) float64                  { return 30 }
 
-// ---- Low-Latency part duration search: in the bounded runs its result is an arbitrary value in
-// the range lemma.compat (C19) proves for the real function; C01-C05 must hold for any such value ----
-
-func verifStub_findCompat(minPartDuration time.Duration, sampleDurations map[time.Duration]struct{}) time.Duration {
-	return time.Duration(verifRangeI64("adjustedPartDuration", int64(minPartDuration), int64(5*time.Second)))
-}
